@@ -353,10 +353,16 @@ func run(env *simrt.Env, sci interface{}) {
 		if !r.done {
 			// liveness at quiescence: every timer has fired; a read still blocked under a
 			// non-zero deadline should have been released (the bridge case does not quiesce)
-			if sc.Conn != "bridge" && !overlapping && !vals[0].IsZero() {
-				env.Fail("C10/blocked-past-deadline", "%s: read #%d (invoked at %s) is still blocked at quiescence although the deadline in force (%s) has passed", sc.Conn, i, rel(r.tInv), rel(vals[0]))
+			// the setter is one worker: all its Sets have completed by now and the last one rules
+			lastSet := time.Time{}
+			if len(sets) > 0 {
+				lastSet = sets[len(sets)-1].val
+			}
+			if sc.Conn != "bridge" && !lastSet.IsZero() {
+				env.Fail("C10/blocked-past-deadline", "%s: read #%d (invoked at %s) is still blocked at quiescence although the deadline in force (%s, the last one set) has passed", sc.Conn, i, rel(r.tInv), rel(lastSet))
 				return
 			}
+			_ = overlapping
 			continue
 		}
 		if isTimeout(r.err) {
